@@ -1,7 +1,55 @@
 package main
 
+// Registration of the rule families that decide (clauses of) each property.
+// A property is registered only with rules that are silent on the current
+// tree (after the recorded fix: commits and known findings) and that fire on
+// their mutants (see /verif/mutants and DESIGN.md).
+
+func not(f func(string) bool) func(string) bool { return func(s string) bool { return !f(s) } }
+
+func and(fs ...func(string) bool) func(string) bool {
+	return func(s string) bool {
+		for _, f := range fs {
+			if !f(s) {
+				return false
+			}
+		}
+		return true
+	}
+}
+
+var (
+	inWKB      = inPkgs("encoding/internal/wkbcommon.", "encoding/wkb.", "encoding/ewkb.")
+	inMVT      = and(inPkgs("encoding/mvt."), not(inPkgs("encoding/mvt/vectortile.")))
+	inDecoders = and(inPkgs("encoding/", "geojson."), not(inPkgs("encoding/mvt/vectortile.")))
+	notGenerated = not(inPkgs("encoding/mvt/vectortile."))
+)
+
 func init() {
+	register("DBG", "debug: every rule over the whole module",
+		ruleRunOnce(nil, 0), ruleMemberLoops(nil, 0, 0))
+
+	register("C01",
+		"Structural necessary conditions of 'WKB/EWKB is lossless': coordinates are only moved and bit-cast on the codec path (no float computation, so every float64 bit pattern survives); every member loop of the writer covers all members. Value-level round-trip equality is NOT decided.",
+		ruleFloatPure(inWKB, nil, 70),
+		ruleMemberLoops(inWKB, 10, 0),
+	)
+
+	register("C03",
+		"Structural necessary conditions of 'MVT round-trips and marshals deterministically': no map iteration order can reach the output of Marshal (decided for all inputs and all map orders); every collection member is encoded (run-once loops); member loops cover all features/parts. Zigzag arithmetic and ring regrouping are NOT decided.",
+		ruleMapOrder([]string{"encoding/mvt.Marshal", "encoding/mvt.MarshalGzipped"}, []string{"encoding/mvt/vectortile"}, 1),
+		ruleRunOnce(inMVT, 30),
+		ruleMemberLoops(inMVT, 18, 0),
+	)
+
+	register("C05",
+		"Structural necessary conditions of 'decoders are total and allocation-bounded': no guard arithmetic on a decoded count can wrap in a narrow unsigned type. (Further clauses are added by the shape interpreter.)",
+		ruleNarrowArith(inDecoders, 2),
+	)
+
 	register("C20",
-		"Structural necessary conditions of 'generic entry points are total': typestate over dynamic kinds at every type switch / assertion on orb.Geometry, sealedness of the interface. Numeric agreement with typed functions is NOT decided.",
-		ruleSealed, ruleKinds)
+		"Structural necessary conditions of 'generic entry points are total': typestate over dynamic kinds at every type switch / assertion on orb.Geometry, sealedness of the interface, no collection loop cut after its first member. Numeric agreement with typed functions is NOT decided.",
+		ruleSealed, ruleKinds,
+		ruleRunOnce(notGenerated, 200),
+	)
 }
